@@ -720,6 +720,21 @@ theorem findRepo_of_mem {s : State} (hs : ReposSorted s) {r : Repo} (hr : r ∈ 
       rw [hne]
       exact ih hs.2 hr
 
+/-- **`initialize` re-establishes the inventory.** For *every* state (no invariant assumed): the inventory
+announcement created by `initialize` lists only repositories that are public at that moment — whatever the
+routing table, the old cached inventory or the gossip store contain. This is the boundary of the known
+window of `inventory_excludes_private_counterexample`: a repository made private while the node runs stays
+listed only in announcements created *before* the next `initialize`. -/
+theorem restart_inventory_public (s : State) (hs : ReposSorted s) :
+    ∀ x ∈ (restart s).1.inv, isPrivate s x = false := by
+  obtain ⟨_, i⟩ := initFold_lists s.seedsDb s.repos { s := s }
+  intro x hx
+  have hx' : x ∈ (s.repos.foldl (initRepo s.seedsDb) { s := s }).inventory := by
+    simpa [restart, timestamp] using hx
+  rcases i x hx' with h | ⟨r, hr, rfl, hp⟩
+  · simp at h
+  · simp [isPrivate, findRepo_of_mem hs hr, hp]
+
 /-! ### The invariant along runs -/
 
 /-- What the environment must respect for the inventory clause: no *listed* repository is made private,
